@@ -21,6 +21,17 @@ VERIF = os.path.dirname(os.path.dirname(os.path.abspath(__file__)))
 COQ = os.path.join(VERIF, "coq")
 BUILD = os.path.join(VERIF, "build")
 REPO = os.environ.get("VERIF_REPO", "/repo")
+SCRATCH_TREE = os.path.realpath(REPO) != "/repo"
+if SCRATCH_TREE:
+    # A run against a scratch worktree gets its own copy of the Coq tree (sources and compiled
+    # files): its Generated/Tables.v and whatever has to be rebuilt for it never touch, race
+    # with or invalidate the build that the checks against /repo itself use.
+    import atexit as _atexit
+    _src = COQ
+    COQ = os.path.join(BUILD, "coq-scratch-%d" % os.getpid())
+    os.makedirs(BUILD, exist_ok=True)
+    subprocess.run(["rsync", "-a", "--delete", _src + "/", COQ + "/"], check=True)
+    _atexit.register(lambda: shutil.rmtree(COQ, ignore_errors=True))
 NPROC = int(os.environ.get("VERIF_JOBS", "0")) or min(16, os.cpu_count() or 4)
 COQC_TIMEOUT = 600
 
@@ -107,7 +118,7 @@ class Prop:
 # --------------------------------------------------------------------------
 def _flock():
     os.makedirs(BUILD, exist_ok=True)
-    f = open(os.path.join(BUILD, ".lock"), "w")
+    f = open(os.path.join(COQ, ".buildlock") if SCRATCH_TREE else os.path.join(BUILD, ".lock"), "w")
     fcntl.flock(f, fcntl.LOCK_EX)
     return f
 
@@ -144,7 +155,7 @@ def regenerate_tables():
     """coq/Generated/Tables.v from the repository's current source (fail-closed)."""
     from . import translate
     try:
-        TRANSLATOR_STATUS.update(translate.regenerate(REPO))
+        TRANSLATOR_STATUS.update(translate.regenerate(REPO, os.path.join(COQ, "Generated", "Tables.v")))
     except Exception as e:  # never let the translator itself decide a verdict
         TRANSLATOR_STATUS["error"] = repr(e)
 
